@@ -110,6 +110,34 @@ fn bump_probes<C: Clone + Serialize>(ctx: &mut WorkerCtx<C>, plan: &Plan, out: &
     if out.noidle_ignored > 0 {
         ctx.counters.bump("noidle_race");
     }
+    match plan.consumer {
+        Consumer::Ticking { form, .. } => {
+            ctx.counters.bump(match form {
+                1 => "consumer.ticking_select",
+                2 => "consumer.ticking_poll_once",
+                _ => "consumer.ticking_timeout",
+            });
+        }
+        Consumer::DropAt(_) => ctx.counters.bump("consumer.receiver_dropped"),
+        Consumer::StartAt(_) => ctx.counters.bump("consumer.starts_late"),
+        Consumer::Never => ctx.counters.bump("consumer.never_polls"),
+        Consumer::Drain => {}
+    }
+    if plan.net.vectored {
+        ctx.counters.bump("transport_with_native_vectored_writes");
+    }
+    if plan
+        .callers
+        .iter()
+        .flatten()
+        .any(|o| matches!(o, Op::Think { ms } if *ms >= 10_000))
+    {
+        ctx.counters.bump("long_quiet_stretch_plans");
+    }
+    if plan.password.is_none() && !plan.faults.is_empty() && plan.callers.is_empty() {
+        // (C18) bare handshake with the write side breaking right after it
+        ctx.counters.bump("fault_right_after_handshake_no_workload");
+    }
     if out.idle_immediate > 0 {
         ctx.counters.bump("idle_answered_immediately_runs");
     }
